@@ -120,6 +120,14 @@ func emitNodeAssemblerHelper_mapoid_keyTidyHelper(w io.Writer, adjCfg *AdjunctCf
 				ma.ka.w = nil
 				tz := &ma.w.t[len(ma.w.t)-1]
 				ma.cm = schema.Maybe_Absent
+				if _, exists := ma.w.m[tz.k]; exists {
+					// A repeated key: roll the entry back, leaving no trace of it,
+					//  and go back to the initial state (which tells AssembleValue to report the error).
+					ma.w.t = ma.w.t[:len(ma.w.t)-1]
+					ma.state = maState_initial
+					ma.ka.reset()
+					return true
+				}
 				ma.state = maState_expectValue
 				ma.w.m[tz.k] = &tz.v
 				{{- if .Type.ValueIsNullable }}
@@ -279,9 +287,14 @@ func emitNodeAssemblerHelper_mapoid_mapAssemblerMethods(w io.Writer, adjCfg *Adj
 			case maState_initial:
 				panic("invalid state: AssembleValue cannot be called when no key is primed")
 			case maState_midKey:
+				k := ma.w.t[len(ma.w.t)-1].k
 				if !ma.keyFinishTidy() {
 					panic("invalid state: AssembleValue cannot be called when in the middle of assembling a key")
 				} // if tidy success: carry on
+				if ma.state == maState_initial {
+					// The key was a repeat and has been rolled back; the assembler is ready for another key.
+					return _ErrorThunkAssembler{datamodel.ErrRepeatedMapKey{Key: &k}}
+				}
 			case maState_expectValue:
 				// carry on
 			case maState_midValue:
